@@ -46,14 +46,19 @@ type Prog struct {
 	Root Act    `json:"root"`
 }
 
-var contexts = []string{"top", "func", "for", "while", "foreach", "funcloop"}
+// "calls" = the function context with the function called three times in a row (family d1i only)
+var contexts = []string{"top", "func", "for", "while", "foreach", "funcloop", "calls"}
 
-func ctxIsFunc(c string) bool { return c == "func" || c == "funcloop" }
-func ctxIsLoop(c string) bool { return c == "for" || c == "while" || c == "foreach" || c == "funcloop" }
+func ctxIsFunc(c string) bool { return c == "func" || c == "funcloop" || c == "calls" }
+
+// ctxRepeats: the root statement is executed more than once in one run.
+func ctxRepeats(c string) bool { return ctxIsLoop(c) || c == "calls" }
+func ctxIsLoop(c string) bool  { return c == "for" || c == "while" || c == "foreach" || c == "funcloop" }
 
 // ---- class hierarchy --------------------------------------------------------------------
 //
 //	Throwable <- Exception <- E1 <- E0 ;  Exception <- E2 implements I
+//	Exception <- E3 implements J3 ;  interface J3 extends J2 extends J1   (three extends-levels)
 
 var instProbe = []string{"E0", "E1", "E2", "I", "Exception", "Throwable"}
 
@@ -67,6 +72,8 @@ func isA(cls, typ string) bool {
 		return cls == "E1" || cls == "E0"
 	case "E2", "I":
 		return cls == "E2"
+	case "E3", "J1", "J2", "J3":
+		return cls == "E3"
 	}
 	return false
 }
@@ -188,7 +195,7 @@ func validAct(a Act, ctx string, inCatch, inFin bool) bool {
 	case "m", "rt0", "rtm", "rth", "rtp":
 		return true
 	case "throw", "call":
-		return a.Cls == "E0" || a.Cls == "E1" || a.Cls == "E2"
+		return a.Cls == "E0" || a.Cls == "E1" || a.Cls == "E2" || a.Cls == "E3"
 	case "re":
 		return inCatch
 	case "ret":
@@ -348,13 +355,17 @@ func header(seed int64, throwers bool) string {
 	r.line(0, fmt.Sprintf("class %s extends Exception {}", r.name("E1")))
 	r.line(0, fmt.Sprintf("class %s extends %s {}", r.name("E0"), r.name("E1")))
 	r.line(0, fmt.Sprintf("class %s extends Exception implements %s {}", r.name("E2"), I))
+	r.line(0, fmt.Sprintf("interface %s {}", r.name("J1")))
+	r.line(0, fmt.Sprintf("interface %s extends %s {}", r.name("J2"), r.name("J1")))
+	r.line(0, fmt.Sprintf("interface %s extends %s {}", r.name("J3"), r.name("J2")))
+	r.line(0, fmt.Sprintf("class %s extends Exception implements %s {}", r.name("E3"), r.name("J3")))
 	var bits []string
 	for _, c := range instProbe {
 		bits = append(bits, fmt.Sprintf(`(($o instanceof %s) ? "1" : "0")`, r.name(c)))
 	}
 	r.line(0, fmt.Sprintf("function %s($o) { return %s; }", r.name("bits"), strings.Join(bits, " . ")))
 	if throwers {
-		for _, c := range []string{"E0", "E1", "E2"} {
+		for _, c := range []string{"E0", "E1", "E2", "E3"} {
 			r.line(0, fmt.Sprintf(`function %s() { $x = new %s("f%s"); %s::$last = $x; throw $x; }`, r.name("thrower_"+c), r.name(c), c, K))
 		}
 	}
@@ -401,6 +412,17 @@ func source(p Prog, seed int64) string {
 		r.act(root, 1, "")
 		r.line(1, `echo "A;";`)
 		r.line(0, "}")
+		r.line(0, `echo "Z;";`)
+	case "calls":
+		r.line(0, "function f() {")
+		r.act(root, 1, "")
+		r.line(1, `echo "A;";`)
+		r.line(1, `return 0;`)
+		r.line(0, "}")
+		for i := 0; i < 3; i++ {
+			r.line(0, `$r = f();`)
+			r.line(0, `echo "r=", $r, ";";`)
+		}
 		r.line(0, `echo "Z;";`)
 	case "funcloop":
 		r.line(0, "function f() {")
@@ -450,7 +472,9 @@ type bounds struct {
 func (b bounds) hasFamily(fam, ctx string) bool {
 	switch fam {
 	case "d1", "d1x":
-		return true
+		return ctx != "calls"
+	case "d1i":
+		return ctxRepeats(ctx) // the point of the family is the SAME throw handled repeatedly in one run
 	case "d3":
 		return b.D3 && ctx != "funcloop" // funcloop adds nothing a depth-3 chain has not shown in func and for
 	}
@@ -493,9 +517,9 @@ func tierBounds(quick bool) bounds {
 
 func decode(code string) Act {
 	switch code {
-	case "tE0", "tE1", "tE2":
+	case "tE0", "tE1", "tE2", "tE3":
 		return Act{K: "throw", Cls: code[1:]}
-	case "cE0", "cE1", "cE2":
+	case "cE0", "cE1", "cE2", "cE3":
 		return Act{K: "call", Cls: code[1:]}
 	}
 	return Act{K: code}
@@ -580,7 +604,7 @@ func tries(bodies []Act, types []string, maxC int, cbodies []Act, finals []*Act,
 	}
 }
 
-var families = []string{"d1", "d1x", "d2body", "d2catch", "d2fin", "d3"}
+var families = []string{"d1", "d1x", "d1i", "d2body", "d2catch", "d2fin", "d3"}
 
 // enumerate calls f with every program of the family in the context, in a fixed order. The
 // Prog passed to f shares structure with the enumerator: clone() it to keep it.
@@ -604,6 +628,13 @@ func enumerate(b bounds, fam, ctx string, f func(Prog)) {
 		// depth 1, at most one catch, the catch / finally bodies that d1 leaves out: runtime errors
 		// (control-level and Go-level) and a throwing call inside a catch body or a finally body
 		tries(acts(b.D1Body, ctx, false), b.D1Types, 1, acts(b.D1xCatch, "top", false), fins(b.D1xFins, ctx), emit)
+	case "d1i":
+		// depth 1 in the repeating contexts (2 loop iterations / 3 calls): an exception whose class
+		// reaches the caught interface through a 3-level extends chain, every ordered list of <= 2
+		// catch types over the chain plus matching / non-matching class types; the reference picks
+		// the same handler on every repetition
+		tries(acts([]string{"tE3", "cE3"}, "top", false), []string{"J1", "J2", "J3", "I", "E1", "Exception", "Throwable"}, 2,
+			acts([]string{"m"}, ctx, false), fins([]string{"-", "m"}, "top"), emit)
 	case "d2body":
 		// inner try is the outer try's body
 		tries(acts(b.D2Body, ctx, false), b.D2Types, b.D2MaxC, acts(b.D2Catch, ctx, false), fins(b.Fins, ctx), func(in Try) {
